@@ -659,12 +659,12 @@ impl<'a, 'b, 'c> World<'a, 'b, 'c> {
 				let mon_id = self.nodes[n].chain_monitor.chain_monitor.get_monitor(*chan).map(|m| m.get_latest_update_id() as i64).unwrap_or(-1);
 				let body = match v {
 					Some((Some(v), infl, acts)) => format!(
-						"\"open\":true,\"latest\":{},\"mip\":{},\"ready\":{},\"arr\":{},\"pd\":{},\"blocked\":[{}],\"praa\":{},\"pcs\":{},\"pcr\":{},\"pfwd\":{},\"pfail\":{},\"pfin\":{},\"padds\":{},\"raa_first\":{},\"hc\":{},\"hcfee\":{},\"inflight\":[{}],\"acts\":{}",
+						"\"open\":true,\"latest\":{},\"mip\":{},\"ready\":{},\"arr\":{},\"pd\":{},\"blocked\":[{}],\"praa\":{},\"pcs\":{},\"pcr\":{},\"pfwd\":{},\"pfail\":{},\"pfin\":{},\"padds\":{},\"raa_first\":{},\"hc\":{},\"hca\":{},\"hcfee\":{},\"inflight\":[{}],\"acts\":{}",
 						v.latest_monitor_update_id, v.monitor_update_in_progress, v.channel_ready, v.awaiting_remote_revoke, v.peer_disconnected,
 						v.blocked_update_ids.iter().map(|x| x.to_string()).collect::<Vec<_>>().join(","),
 						v.monitor_pending_revoke_and_ack, v.monitor_pending_commitment_signed, v.monitor_pending_channel_ready,
 						v.monitor_pending_forwards, v.monitor_pending_failures, v.monitor_pending_finalized_fulfills, v.monitor_pending_update_adds,
-						v.resend_raa_first, v.holding_cell_htlc_updates, v.holding_cell_update_fee,
+						v.resend_raa_first, v.holding_cell_htlc_updates, v.holding_cell_adds, v.holding_cell_update_fee,
 						infl.iter().map(|x| x.to_string()).collect::<Vec<_>>().join(","), acts),
 					Some((None, infl, acts)) => format!(
 						"\"open\":false,\"inflight\":[{}],\"acts\":{}",
